@@ -47,8 +47,10 @@ pub fn gen_case(seed: u64, index: u64) -> Case {
     }
     let cfg = gen::gen_runcfg(&mut rng);
     let len = 4 + rng.below(36) as usize;
-    let ops = gen::gen_history(&mut rng, &sw, len, 0);
-    Case { property: "C05".into(), seed, run: index, cfg, fill2: cfg.fill, shadow: false, enumerate: false, garbage_seed: rng.next() | 1, ops }
+    let mut ops = gen::gen_history(&mut rng, &sw, len, 0);
+    let garbage_seed = rng.next() | 1;
+    gen::insert_rand_ops(&mut ops, rs, false);
+    Case { property: "C05".into(), seed, run: index, cfg, fill2: cfg.fill, shadow: false, enumerate: false, garbage_seed, ops }
 }
 
 fn std_hash<T: Hash>(v: &T) -> u64 {
